@@ -232,6 +232,22 @@ def _freq_values(m):
     return out
 
 
+class _PeriodVal:
+    """a period as the integer it wraps (the arithmetic the property itself states: p + n, p - n, p - q)"""
+    _fin_attrs = ("serial",)
+
+    def __init__(self, serial):
+        self.serial = int(serial)
+
+    def __add__(self, n):
+        if isinstance(n, _PeriodVal):
+            raise fin.NotFinite("period + period")
+        return _PeriodVal(self.serial + int(n))
+
+    def __sub__(self, n):
+        return self.serial - n.serial if isinstance(n, _PeriodVal) else _PeriodVal(self.serial - int(n))
+
+
 def rule_r3(chk, m):
     chk.rule("C09-R3", "finite evaluation of the extracted integer forms: to_year_segment(_serial_from_ysf(y, s, f)) == (y, s) and "
              "back, for f in {1,2,4,12}, every segment, years incl. negative and 0; create_soy/eoy/eopy/tty and shift keywords "
@@ -350,10 +366,11 @@ def rule_r3(chk, m):
             for (y, mth, dd_) in ((2023, 1, 1), (2023, 6, 17), (2024, 2, 29), (2024, 12, 31), (2025, 1, 1), (2000, 3, 1), (1900, 12, 31)):
                 serial = datetime.date(y, mth, dd_).toordinal()
                 funcs = dict(fin.CALENDAR_FUNCS)
-                funcs.update({"self.get_year": lambda y=y: y, "self.to_ymd": lambda y=y, mth=mth, dd_=dd_, **kw: (y, mth, dd_), "type": lambda obj: (lambda s_: ("PERIOD", s_)),
+                funcs.update({"self.get_year": lambda y=y: y, "self.to_ymd": lambda y=y, mth=mth, dd_=dd_, **kw: (y, mth, dd_), "type": lambda obj: _PeriodVal,
                               "self.to_year_segment": lambda y=y, serial=serial: (y, serial - datetime.date(y, 1, 1).toordinal() + 1)})
                 got = fin.run_function(f, {}, funcs=funcs, env={"self": "SELF", "self.serial": serial, "self.frequency.value": 365}, methods=d)
                 want = ("PERIOD", want_fn(y, mth).toordinal())
+                got = ("PERIOD", got.serial) if isinstance(got, _PeriodVal) else got
                 if got != want:
                     bad = ((y, mth, dd_), got, want)
                     break
